@@ -2,6 +2,7 @@
 Helper lemmas for C09 (text form of cardinalities).
 -/
 import OdmlModel.Model.Card
+import OdmlModel.Model.CardObj
 import OdmlModel.Proofs.Str
 
 namespace Card
@@ -108,5 +109,141 @@ theorem nonneg_truthy {a : In} {x : Int} (h : nonnegInt a = some x) :
   cases a <;> simp [In.asInt] at h
   · rename_i b; cases b <;> simp_all [In.truthy] <;> subst h <;> simp
   · rename_i i; obtain ⟨h1, rfl⟩ := h; simp [In.truthy, h1]
+
+/-! ### The stored objects (`Model/CardObj.lean`) -/
+
+theorem nonneg_asInt {a : In} {x : Int} (h : nonnegInt a = some x) : a.asInt = some x := by
+  unfold nonnegInt at h
+  cases ha : a.asInt with
+  | none => simp [ha] at h
+  | some i =>
+    simp only [ha] at h
+    split at h
+    · simpa using h
+    · cases h
+
+theorem pyInt_keepsValue : KeepsValue pyInt := by
+  intro v i h; simp [pyInt, h, PyBound.val]
+
+theorem asGiven_keepsValue : KeepsValue asGiven := by
+  intro v i h
+  cases v <;> simp [In.asInt] at h <;> simp [asGiven, PyBound.val, h]
+
+theorem pyInt_exact (v : In) : (pyInt v).exact = true := by
+  unfold pyInt; split <;> rfl
+
+theorem unboolAtom_truthy (a : In) : a.unboolAtom.truthy = a.truthy := by
+  cases a <;> simp [In.unboolAtom, In.truthy]
+  rename_i b; cases b <;> simp
+
+theorem unboolAtom_asInt (a : In) : a.unboolAtom.asInt = a.asInt := by
+  cases a <;> simp [In.unboolAtom, In.asInt]
+
+theorem unboolAtom_nonneg (a : In) : nonnegInt a.unboolAtom = nonnegInt a := by
+  simp [nonnegInt, unboolAtom_asInt]
+
+theorem unboolAtom_pyInt (a : In) : pyInt a.unboolAtom = pyInt a := by
+  simp [pyInt, unboolAtom_asInt]
+
+
+theorem formatCardObj_pair (conv : In → PyBound) (t : Bool) (a b : In) :
+    formatCardObj conv (.seq t [a, b]) =
+      if !a.truthy && !b.truthy then .ok none
+      else
+        match nonnegInt a, nonnegInt b with
+        | some x, some y =>
+          if y ≥ x then .ok (some (conv a, conv b))
+          else if !a.truthy then .ok (some (.nul, conv b))
+          else if !b.truthy then .ok (some (conv a, .nul))
+          else .valueError
+        | none, some _ => if !a.truthy then .ok (some (.nul, conv b)) else .valueError
+        | some _, none => if !b.truthy then .ok (some (conv a, .nul)) else .valueError
+        | none, none => .valueError := by
+  have ht : (In.seq t [a, b]).truthy = true := rfl
+  unfold formatCardObj
+  simp only [ht, Bool.not_true, Bool.false_eq_true, ↓reduceIte]
+  rfl
+
+theorem formatCardObj_other (conv : In → PyBound) (v : In) (h : ∀ t a b, v ≠ .seq t [a, b]) :
+    formatCardObj conv v =
+      if !v.truthy then .ok none
+      else match v.asInt with
+        | some i => if i > 0 then .ok (some (.nul, conv v)) else .valueError
+        | none => .valueError := by
+  unfold formatCardObj
+  split
+  · rfl
+  · split
+    · exact absurd rfl (h _ _ _)
+    · rfl
+
+theorem formatCard_pair (t : Bool) (a b : In) :
+    formatCard (.seq t [a, b]) =
+      if !a.truthy && !b.truthy then .ok none
+      else
+        match nonnegInt a, nonnegInt b with
+        | some x, some y =>
+          if y ≥ x then .ok (some (some x, some y))
+          else if !a.truthy then .ok (some (none, some y))
+          else if !b.truthy then .ok (some (some x, none))
+          else .valueError
+        | none, some y => if !a.truthy then .ok (some (none, some y)) else .valueError
+        | some x, none => if !b.truthy then .ok (some (some x, none)) else .valueError
+        | none, none => .valueError := by
+  have ht : (In.seq t [a, b]).truthy = true := rfl
+  unfold formatCard
+  simp only [ht, Bool.not_true, Bool.false_eq_true, ↓reduceIte]
+  rfl
+
+theorem formatCard_other (v : In) (h : ∀ t a b, v ≠ .seq t [a, b]) :
+    formatCard v =
+      if !v.truthy then .ok none
+      else match v.asInt with
+        | some i => if i > 0 then .ok (some (none, some i)) else .valueError
+        | none => .valueError := by
+  unfold formatCard
+  split
+  · rfl
+  · split
+    · exact absurd rfl (h _ _ _)
+    · rfl
+
+theorem exact_render {a : PyBound} (h : a.exact = true) : renderPyBound a = renderBound a.val := by
+  cases a <;> simp [PyBound.exact] at h <;> rfl
+
+theorem exact_din {a : PyBound} (h : a.exact = true) : dinOfPyBound a = dinOfBound a.val := by
+  cases a <;> simp [PyBound.exact] at h <;> rfl
+
+theorem fmt_obj_exact (v : In) (a b : PyBound) (h : formatCardObj pyInt v = .ok (some (a, b))) :
+    a.exact = true ∧ b.exact = true := by
+  have hn : PyBound.nul.exact = true := rfl
+  by_cases hs : ∃ t x y, v = .seq t [x, y]
+  · obtain ⟨t, x, y, rfl⟩ := hs
+    rw [formatCardObj_pair] at h
+    split at h
+    · cases h
+    · split at h <;> (repeat' split at h) <;> simp at h <;>
+        (obtain ⟨rfl, rfl⟩ := h; simp [pyInt_exact, hn])
+  · have hs' : ∀ t x y, v ≠ .seq t [x, y] := fun t x y h => hs ⟨t, x, y, h⟩
+    rw [formatCardObj_other pyInt v hs'] at h
+    (repeat' split at h) <;> simp at h <;> (obtain ⟨rfl, rfl⟩ := h; simp [pyInt_exact, hn])
+
+theorem fmt_obj_unbool (v : In) : formatCardObj pyInt v.unbool = formatCardObj pyInt v := by
+  cases v with
+  | seq t xs =>
+    match xs with
+    | [] => rfl
+    | [a] => simp [In.unbool, formatCardObj, In.truthy, In.asInt]
+    | [a, b] =>
+      simp only [In.unbool, List.map_cons, List.map_nil]
+      rw [formatCardObj_pair, formatCardObj_pair]
+      simp only [unboolAtom_truthy, unboolAtom_nonneg, unboolAtom_pyInt]
+    | a :: b :: c :: r => simp [In.unbool, formatCardObj, In.truthy, In.asInt]
+  | bool b => cases b <;> decide
+  | nul => rfl
+  | int i => rfl
+  | float z => rfl
+  | str s => rfl
+  | other t => rfl
 
 end Card
